@@ -34,6 +34,9 @@ ENV_SOURCES = [
     ("std::collections::hash_map::RandomState::new", "hash seed"),
     ("std::hash::BuildHasher::hash_one", "hash seed"), ("std::hash::BuildHasher::build_hasher", "hash seed"),
     ("std::ptr::addr_of", "address"), ("std::fs::read_dir", "directory order"),
+    ("std::fs::metadata", "file metadata (times, sizes)"), ("std::fs::symlink_metadata", "file metadata"), ("std::fs::File::metadata", "file metadata"),
+    ("std::fs::Metadata::modified", "file modification time"), ("std::fs::Metadata::accessed", "file access time"), ("std::fs::Metadata::created", "file creation time"),
+    ("std::path::Path::metadata", "file metadata"), ("std::env::current_exe", "environment"), ("std::env::home_dir", "environment"),
 ]
 
 
